@@ -84,7 +84,7 @@ func NewSolver(kind string, tb *Table, timeoutMs int) (*Solver, error) {
 	if err := cmd.Start(); err != nil {
 		return nil, err
 	}
-	s := &Solver{Kind: kind, cmd: cmd, in: in, out: bufio.NewReaderSize(outp, 1<<16), tb: tb, timeout: timeoutMs, FastMs: 1500, frames: [][]*Term{nil}}
+	s := &Solver{Kind: kind, cmd: cmd, in: in, out: bufio.NewReaderSize(outp, 1<<16), tb: tb, timeout: timeoutMs, FastMs: fastMsDefault(), frames: [][]*Term{nil}}
 	if p := os.Getenv("SYMGO_SMTLOG"); p != "" {
 		f, _ := os.Create(fmt.Sprintf("%s.%d", p, cmd.Process.Pid))
 		s.Log = f
@@ -648,4 +648,13 @@ func crossCheck(cmdline, script string) Result {
 		cmd.Process.Kill()
 		return Unknown
 	}
+}
+
+func fastMsDefault() int {
+	if v := os.Getenv("SYMGO_FASTMS"); v != "" {
+		if n, err := strconv.Atoi(v); err == nil && n > 0 {
+			return n
+		}
+	}
+	return 1500
 }
